@@ -36,6 +36,17 @@ mod private {
             let offset = stream.tell();
             let mut serializer = Serializer::new(BlockCheck::Crc32);
             self.serialize_tail(&mut serializer)?;
+            if serializer.len() > 0xFFFF {
+                // The size of a tail is stored on 16 bits.
+                return Err(std::io::Error::new(
+                    std::io::ErrorKind::InvalidInput,
+                    format!(
+                        "Tail is too large ({} bytes, maximum is 65535)",
+                        serializer.len()
+                    ),
+                )
+                .into());
+            }
             let size = stream.write_serializer(serializer)?.into();
             Ok(SizedOffset { size, offset })
         }
